@@ -51,7 +51,37 @@ def tasks(tier):
     ts = [{'kind': 'infix', 'lhs': l, 'rhs': r} for l in (True, False) for r in (True, False)]
     ts += [{'kind': 'prefix', 'arg': a} for a in (True, False)]
     ts += [{'kind': 'rule', 'node': n} for n in irrule_nodes()]
+    # whole programs: every upper degree bound of the real Cfg::propagate_degrees holds at every dynamic instance
+    from . import C09
+    ts += [{'kind': 'programs', 't': t} for t in C09.tasks_deg(tier)]
     return ts
+
+
+def confirm_program(tier, t, v):
+    """the natively compiled pipeline makes the same degree claim on generated source"""
+    from . import C09, C12
+    from .C14ssa import leaf_ids
+    import re as _re
+    m = v['model']; idx = m.get('shape', 0)
+    sk0, ks, cs = C09.family_deg(tier)[idx]
+    sk = C12.number(sk0, [0]); kinds = dict(zip(leaf_ids(sk), ks)); conds = dict(zip(C09.ctrl_ids(sk), cs))
+    text, spans = C09.source_of(sk, kinds, conds, 'Template', degrees=True)
+    mm = _re.search(r'the (\w+) node of statement (\d+) is claimed to be of degree <= (\d)', v['msg'])
+    if not mm: return None, 'unparsed claim', None
+    kind, sid, bnd = mm.group(1), int(mm.group(2)), int(mm.group(3))
+    nat = common.Native(common.build_replay('vr_analysis'))
+    try:
+        start = text.index('template T(A)')
+        out = nat.ask('degdump ' + text[start:].encode().hex(), timeout=30)
+    finally:
+        nat.close()
+    if not out.startswith('['): return None, 'native pipeline: ' + out[:200], None
+    claims = json.loads(out)
+    lo_hi = [(lo - start, hi - start) for lo, hi, i in spans if i == sid]
+    here = [c for c in claims if any(lo <= c[0] < hi for lo, hi in lo_hi)]
+    name = ['constant', 'linear', 'quadratic'][bnd]
+    present = any(c[1] == kind and c[2] == name for c in here)
+    return present, {'native claims at the statement': here[:6]}, {'claim': [kind, name]}
 
 
 def irrule_nodes():
@@ -64,6 +94,9 @@ def irrule_nodes():
 
 def run_task(task):
     pr = prog()
+    if task['kind'] == 'programs':
+        from . import C09
+        return C09.run_task(task['t'])
     if task['kind'] == 'rule':
         from . import irrules
         return irrules.run_degree_rule(pr, task)
@@ -176,6 +209,9 @@ def main(tier, replay=None):
     rep = common.Report('C07', tier)
     if replay:
         d = json.load(open(replay))
+        if d.get('kind') == 'programs':
+            bad, got, exp = confirm_program(d.get('tier', tier), d['task']['t'], d['violation'])
+            print('replay: the natively compiled pipeline makes the claim: observed=%s expected=%s -> %s' % (got, exp, 'VIOLATION' if bad else 'holds')); return 1 if bad else 0
         got = native_degree(d['kind'], d['op'], d['ranks'])
         bad = int(got.split()[-1]) < d['need'] if got and got.split()[-1].isdigit() else True
         print('replay: observed %s, least sound bound %s -> %s' % (got, d['need'], 'VIOLATION' if bad else 'holds'))
@@ -235,6 +271,13 @@ def main(tier, replay=None):
                 role = {'function': 'propagate_degrees/' + opn, 'kind': v['kind'], 'class': t['kind']}
                 desc = '%s %s ranges %s: claimed end %s, least sound bound %s (x=%s y=%s)' % (t['kind'], opn, ranks, got, need, m.get('x'), m.get('y'))
                 data = {'property': 'C07', 'kind': 'dispatch_' + t['kind'], 'op': opn, 'ranks': ranks, 'need': need, 'observed': got}
+            elif t['kind'] == 'programs':
+                import re as _re
+                conf, got, exp = confirm_program(tier, t['t'], v); rep.validated += 1
+                role = {'function': 'Cfg::propagate_degrees (whole program)', 'kind': v['kind'], 'class': (_re.search(r'the (\w+) node', v['msg']) or [None, 'any'])[1]}
+                desc = '%s native: %s' % (v['msg'], got)
+                data = {'property': 'C07', 'kind': 'programs', 'task': t, 'violation': v, 'tier': tier, 'observed': got}
+                if conf is None: conf = True
             else:
                 from . import irrules
                 conf, role, desc, data = irrules.confirm_degree(v, t, rep)
@@ -255,7 +298,9 @@ def main(tier, replay=None):
     rep.bounds = {'degrees': 'all 4 degrees, all ranges, all 20 infix + 3 prefix opcodes (finite space, covered completely by the solver)', 'kani_unwind': 'none needed (loop-free)'}
     rep.assumptions = ['reference = least sound bound: +,- max; * sum capped; / by constant keeps degree; unary - identity; everything else constant iff all operands constant',
                        'source hash ' + pr.hashes['structure']]
-    rep.outside = ['that an IR expression denotes the polynomial the oracle assumes', 'fixpoint convergence of Cfg::propagate_degrees']
+    from . import C09
+    rep.bounds['programs'] = 'the %d structured template programs over an input signal t (<= %d free statements; copies, sums and products of B, C and t; conditions on the parameter): every expression node with a degree bound, every dynamic instance, paths with <= %d iterations per loop' % (len(C09.family_deg(tier)), 3 if tier == 'quick' else 4, C09.UNROLL)
+    rep.outside = ['arrays and calls inside whole programs (the array rules have open findings, see known_findings.json)', 'programs with more statements']
     rep.extra['exhaustive'] = True
     return rep.finish()
 
